@@ -3,7 +3,7 @@
    addresses of delivered slices are runtime facts, sampled by the harness (counting global allocator,
    pointer ranges) and compared with what the model predicts. *)
 From TS Require Import Base.Res Model.Timestamp Model.Packet Model.Pes Model.PesFilter Model.Crc Model.Psi Model.Demux
-  Proofs.PesFilterProofs Proofs.SectionProofs Proofs.TableProofs Proofs.TotalityProofs Proofs.ResourceProofs.
+  Proofs.PesFilterProofs Proofs.SectionProofs Proofs.TableProofs Proofs.DeepTotality Proofs.TotalityProofs Proofs.ResourceProofs.
 Open Scope N_scope.
 
 (* every payload the packet layer hands out is a suffix range of the 188-byte packet itself *)
